@@ -43,6 +43,21 @@ type sched struct {
 	keep    bool
 	points  int
 	opCount map[string]int
+	objIDs  map[any]int
+}
+
+// objID gives objects a stable per-run number (addresses differ between runs).
+func objID(p any) int {
+	s := sc
+	if s == nil {
+		return 0
+	}
+	if id, ok := s.objIDs[p]; ok {
+		return id
+	}
+	id := len(s.objIDs) + 1
+	s.objIDs[p] = id
+	return id
 }
 
 type abortSignal struct{}
@@ -70,7 +85,7 @@ func Run(choose Chooser, horizon int, keepTrace bool, body func()) (res Result) 
 	if controlled {
 		panic("vsync.Run: nested")
 	}
-	s := &sched{choose: choose, horizon: horizon, allDone: make(chan struct{}), keep: keepTrace, opCount: map[string]int{}}
+	s := &sched{choose: choose, horizon: horizon, allDone: make(chan struct{}), keep: keepTrace, opCount: map[string]int{}, objIDs: map[any]int{}}
 	t0 := &thread{id: 0, wake: make(chan struct{}, 1)}
 	s.threads = []*thread{t0}
 	s.cur = t0
@@ -288,3 +303,6 @@ func Go(f func()) {
 	}()
 	point(fmt.Sprintf("go T%d", t.id), nil)
 }
+
+// ObjID exposes objID to package vatomic.
+func ObjID(p any) int { return objID(p) }
